@@ -530,7 +530,7 @@ def write_evidence(prop, tier, seed, obligations, hs, verus_results, units, new_
             'tools/weave.py / tools/extract.py item-boundary scanner (self-checked: woven text minus inserted lines == /repo text)',
             'the oracles in contracts/_spec.rs (my reading of the Lua 5.1 manual / Luau grammar, DESIGN.md section 3)',
         ],
-        'explanation': EXPLAIN.get(prop, ''),
+        'explanation': EXPLAIN.get(prop) or ('kernel functions of %s under contract; see DESIGN.md section 4' % prop),
         'functions_under_contract': fns,
         'proof_obligations': [o for o in proofs],
         'bounded_standins_not_counted_as_proved': [o for o in bounded],
